@@ -13,7 +13,11 @@ from usim import time, Scope, instant, Concurrent, TaskCancelled, CancelTask, Ta
 
 from ..engine import EQ, GE, LE, LT, GT, AND, OR, NOT, IMPLIES, MAX
 from ..explore import Family
-from ..kit import Log, simulate, now, classify_run_exception, UserErr, at_cp
+from ..kit import Log, simulate, now, classify_run_exception, UserErr, at_cp, Payload
+
+# what a successful payload returns: a *falsy* object (a task result must never be judged by
+# its truth value)
+RESULT = Payload(('R', 0))
 from ..probe import Probe
 
 BOUNDS = ('dates/delays in [0,40]; cancel family: start delay d0, sleeps d1,d2, cancel at (c,p) '
@@ -81,7 +85,7 @@ def fam_cancel(E, real=False, with_delay=True, twice_modes=3, cleanup=False):
             raise
         if fails:
             raise err
-        return 'R'
+        return RESULT
 
     async def sibling():
         await (time + ds)
@@ -198,7 +202,7 @@ def fam_cancel(E, real=False, with_delay=True, twice_modes=3, cleanup=False):
                     ('args %r', exc.args))
         E.prove(task.status is TaskState.CANCELLED, 'status-cancelled')
     elif aw[1] == 'value':
-        E.prove(aw[3] == 'R' and not fails and task.status is TaskState.SUCCESS, 'status-success')
+        E.prove(aw[3] is RESULT and not fails and task.status is TaskState.SUCCESS, 'status-success')
     else:
         E.prove(aw[3] is err and fails and task.status is TaskState.FAILED, 'status-failed')
     # a second cancel of a task that is still busy (cleaning up) is delivered in its time step
@@ -243,7 +247,7 @@ def fam_awaiters(E, real=False):
     box = []
     err = UserErr('victim failed')
     tok = object()
-    value = object()
+    value = Payload(('value', 0))       # a falsy result object
 
     async def victim():
         await (time + d1)
@@ -368,7 +372,7 @@ def fam_cancel_close(E, real=False):
             log('v', 'cancel-seen')
             raise
         log('v', 'end')
-        return 'R'
+        return RESULT
 
     async def holder():
         try:
